@@ -276,7 +276,9 @@ def run_batch(module, cases, tag="V", nproc=8, timeout=3600, env=None, chunk_min
             vs = extract_printed(r["out"], tag)
             if r["error"] or len(vs) != hi - lo or "AllConsumed" in "".join(r["violated"]) or \
                     "Postcondition" in r["out"] and "violated" in r["out"].split("Postcondition")[-1][:200]:
-                raise TLCError("batch %s chunk %d: %d verdicts for %d cases\n%s" % (module, ci, len(vs), hi - lo, r["out"][-3000:]))
+                o = r["out"]
+                ei = o.find("Error:")
+                raise TLCError("batch %s chunk %d: %d verdicts for %d cases\n%s\n...\n%s" % (module, ci, len(vs), hi - lo, o[ei:ei + 1800] if ei >= 0 else "", o[-600:]))
             for v in vs:
                 v[1] = v[1] + lo  # local 1-based -> global 1-based
             return vs, r
